@@ -180,8 +180,10 @@ def check(tier: str) -> Result:
             if name == "FlatPack":
                 ok = Ys is vfg.mk_attr(ea.state, "num_blocks") and k == -1
             else:
-                two_n = Ys is not None and Ys.kind == "bin" and Ys.args[0] == "*" and \
-                    {strip_cast(Ys.args[1]), strip_cast(Ys.args[2])} == {vfg.mk_attr(ea.self_t, "_num_customers"), const(2)}
+                from ..shapes import canon
+                sides = [strip_cast(Ys.args[1]), strip_cast(Ys.args[2])] if Ys is not None and Ys.kind == "bin" and Ys.args[0] == "*" else []
+                two_n = len(sides) == 2 and const(2) in sides and any(
+                    x.kind == "attr" and x.args[0] is ea.self_t and canon(vfg, x.args[1]) == canon(vfg, "num_customers") for x in sides)
                 ok = bool(two_n) and k == 0
             if not ok:
                 why += f" -- not the documented horizon ({bound_desc})"
